@@ -52,7 +52,7 @@ def required_cells(tier):
         cells += [f"modelled:{f}:joined", f"modelled:{f}:separate"]
     cells += ["prefix:-g*", "prefix:-c*", "prefix:-o*", "prefix:-O*", "prefix:-i*", "prefix:-I*", "prefix:-D*",
               "unmodelled-with-value", "value:space", "value:equals", "value:quote", "value:leading-dash", "command-string",
-              "database-file", "database-multi-entry", "class:E", "class:R", "each-catalogue-flag-next-to-modelled"]
+              "database-file", "database-literal-metacharacters", "database-multi-entry", "class:E", "class:R", "each-catalogue-flag-next-to-modelled"]
     return cells
 
 
@@ -452,8 +452,18 @@ def multi_entry_databases(ctx, rng, work):
         base_argv = ["gcc", rng.choice(quoted), "-O2", "-I", "inc"] + rng.choice([[], ["-DX=1"], ["-include", "pre.h"]])
         for j in range(k):
             src = "src/" + rng.choice(["a.c", "b.c", "c.c"])
-            mode = rng.choice(["same-text-arguments", "same-text-command", "fresh"])
-            if mode == "fresh":
+            mode = rng.choice(["same-text-arguments", "same-text-command", "fresh", "literal-arguments"])
+            if mode == "literal-arguments":
+                # the arguments form is a vector of literal strings: no tilde, variable or glob expansion applies
+                lit = ["~/inc", "$HOME/inc", "${HOME}", "~", "$PWD/../x", "%USERPROFILE%", "inc/$X", "~root", "*", "inc/*.d",
+                       "$(pwd)", "`pwd`", "a\\b", "{a,b}"]
+                argv = ["gcc", "-I", rng.choice(lit), "-I" + rng.choice(lit), "-isystem", rng.choice(lit),
+                        "-D" + rng.choice(["HOME=$HOME", "T=~", "G=*"]), "-include", rng.choice(["~/pre.h", "$HOME/pre.h", "pre.h"]),
+                        "-c", src]
+                form = "arguments"
+                text = shlex.join(argv)
+                acc.cells["database-literal-metacharacters"] += 1
+            elif mode == "fresh":
                 argv = ["gcc"] + [rng.choice(quoted), "-DJ=%d" % j] + ["-c", src]
                 form = rng.choice(["arguments", "command"])
                 text = shlex.join(argv)
@@ -480,10 +490,11 @@ def multi_entry_databases(ctx, rng, work):
             json.dump(entries, f)
         try:
             es = [x for x in config.load_database(db, work) if x["pass_name"] == "default"]
-            got = [(x["defines"], x["include_files"]) for x in es]
+            got = [(x["defines"], x["include_files"], x["include_paths"]) for x in es]
         except Exception as ex:
             got = f"{type(ex).__name__}: {ex}"
-        want = [(argmodel.scan(w[1:])[0], argmodel.scan(w[1:])[2]) for w in wants]
+        want = [(argmodel.scan(w[1:])[0], argmodel.scan(w[1:])[2],
+                 [os.path.abspath(os.path.join(work, p_)) for p_ in argmodel.scan(w[1:], True)[1]]) for w in wants]
         if got == want:
             acc.held(cells=["database-multi-entry"], cls="database", nontrivial=entries)
         else:
